@@ -193,6 +193,8 @@ pub enum Edge {
     /// handle coherence (C13): writer kind, reader kind, index
     WriteRead { w: u8, r: u8, i: u8 },
     Swap { lhs: u8, rhs: u8, i: u8 },
+    /// a USER-DEFINED `AnyValueMut` implementor (copy-on-write: shared read pointer, private write pointer) meets the vector
+    UserValue { op: u8, i: u8 },
     /// lazy clone protocol (C09)
     Lazy { src: u8, j: u8, depth: u8, uses: u8, how: u8, copies: u8 },
     /// raw parts (C17)
@@ -212,7 +214,7 @@ impl Edge {
             Edge::ForgetHandle { .. } => "forget-handle", Edge::ForgetRange { .. } => "forget-range", Edge::ForgetRangeTyped { .. } => "forget-range-typed",
             Edge::WrongPush(..) => "wrong-push", Edge::WrongInsert(..) => "wrong-insert", Edge::WrongSpliceItem { .. } => "wrong-splice",
             Edge::WrongSwap(..) => "wrong-swap", Edge::WrongDowncast(..) => "wrong-downcast", Edge::TypeReports(..) => "type-reports",
-            Edge::WriteRead { .. } => "write-read", Edge::Swap { .. } => "swap", Edge::Lazy { .. } => "lazy",
+            Edge::WriteRead { .. } => "write-read", Edge::Swap { .. } => "swap", Edge::UserValue { .. } => "user-value", Edge::Lazy { .. } => "lazy",
             Edge::RawParts { .. } => "raw-parts", Edge::Bytes { .. } => "bytes",
         }
     }
